@@ -177,6 +177,51 @@ func runC25(c *core.Ctx) {
 			fmt.Sprintf("changes the population of the by-hash map but updates counter=%v numBytes=%v: CountTx()/NumBytes() no longer match the contents", touched["counter"], touched["numBytes"]))
 	}
 	c.Floor("C25/by-hash-counters-co-updated", 9)
+	// the sender counter moves by what happened, not by what was asked: every update of
+	// txListBySenderMap.counter is a unit step (or a reset) taken where the backing map reported the
+	// insertion/removal, or an amount derived from such reports - never the size of a request
+	for _, fn := range c.P.FuncsOfPkg(pkg) {
+		if fn.Signature.Recv() == nil || !strings.HasSuffix(fn.Signature.Recv().Type().String(), "txListBySenderMap") {
+			continue
+		}
+		k := 0
+		core.Instrs(fn, func(in ssa.Instruction) {
+			cc := core.CallOf(in)
+			if cc == nil || len(cc.Args) == 0 {
+				return
+			}
+			fa, ok := cc.Args[0].(*ssa.FieldAddr)
+			if !ok || core.FieldOfAddr(fa).Name() != "counter" {
+				return
+			}
+			d := core.CallDesc(cc)
+			switch d.Name {
+			case "Get", "GetUint64":
+				return
+			}
+			k++
+			c.Analysed(fname(fn))
+			good, why := true, ""
+			if len(cc.Args) > 1 {
+				if _, isC := cc.Args[1].(*ssa.Const); !isC {
+					for x := range core.BackwardReachPure(cc.Args[1]) {
+						if call, isCall := x.(*ssa.Call); isCall {
+							if b, isB := call.Call.Value.(*ssa.Builtin); isB && b.Name() == "len" {
+								for y := range core.BackwardReachPure(call.Call.Args[0]) {
+									if _, isP := y.(*ssa.Parameter); isP {
+										good, why = false, "the counter is changed by the length of a parameter (the number of senders asked for)"
+									}
+								}
+							}
+						}
+					}
+				}
+			}
+			c.Check(good, "C25/sender-counter-follows-the-map", fmt.Sprintf("%s/counter.%s#%d", fname(fn), d.Name, k), in.Pos(),
+				"the sender counter is not changed by the size of a request", why+": senders that were already absent are subtracted too, CountSenders() drifts below the real number (and wraps when negative)")
+		})
+	}
+	c.Floor("C25/sender-counter-follows-the-map", 3)
 
 	// txListForSender: list insert/remove paired with the totals callbacks
 	for _, fn := range c.P.FuncsOfPkg(pkg) {
